@@ -192,7 +192,7 @@ func isStdlib(path string) bool {
 // functionality is reached only through intrinsics.
 var initDeny = map[string]bool{
 	"runtime": true, "os": true, "syscall": true, "net": true, "net/http": true, "reflect": true,
-	"time": true, "sync": true, "log": true, "internal/poll": true, "os/signal": true, "internal/godebug": true,
+	"time": false, "sync": true, "log": true, "internal/poll": true, "os/signal": true, "internal/godebug": true,
 	"crypto/rand": true, "math/rand": true, "math/rand/v2": true, "testing": true, "internal/reflectlite": true,
 	"crypto/tls": true, "crypto/x509": true, "net/http/httptrace": true, "internal/cpu": true, "sync/atomic": true,
 	"runtime/debug": true, "os/exec": true, "io/fs": true, "path/filepath": true, "internal/syscall/unix": true,
